@@ -113,6 +113,58 @@ func runWriter(c *writerCase) (in, obs string) {
 	return CApp("IWriter", CApp("mk_winput", zs(c.Limit), CList(items))), CApp("OWriter", CList(obsItems))
 }
 
+// sysWriters: the write that uses up the limit (exact fit, overshoot, after a
+// short or failing write of the underlying writer) at every position of the
+// sequence, followed by further writes (one of them empty).
+func sysWriters() []*writerCase {
+	var out []*writerCase
+	full := int64(1 << 30)
+	for _, L := range []int64{1, 7, 10} {
+		for n := 1; n <= 4; n++ {
+			for pos := 0; pos < n; pos++ {
+				for kind := 0; kind < 4; kind++ {
+					c := &writerCase{Limit: L}
+					rem := L
+					for j := 0; j < n; j++ {
+						switch {
+						case j < pos:
+							// small writes before; one of them short / failing in kinds 2, 3
+							l := int64(1)
+							if rem-1 < int64(pos-j) {
+								l = 0
+							}
+							acc, e := full, int64(0)
+							if kind == 2 && j == 0 {
+								acc = 0
+							}
+							if kind == 3 && j == 0 {
+								acc, e = 0, 1
+							}
+							c.Writes = append(c.Writes, [3]int64{l, acc, e})
+							if acc >= l {
+								rem -= l
+							}
+						case j == pos:
+							l := rem
+							if kind == 1 {
+								l = rem + 3
+							}
+							c.Writes = append(c.Writes, [3]int64{l, full, 0})
+							rem = 0
+						default:
+							l := int64(j - pos - 1) // the first write after exhaustion is empty
+							c.Writes = append(c.Writes, [3]int64{l * 4, full, 0})
+						}
+					}
+					c.Writes = append(c.Writes, [3]int64{2, full, 0})
+					out = append(out, c)
+				}
+			}
+		}
+	}
+	return out
+}
+
 func genWriter(rng *Rng) *writerCase {
 	c := &writerCase{}
 	switch rng.Intn(10) {
@@ -174,6 +226,20 @@ func genWriter(rng *Rng) *writerCase {
 	return c
 }
 
+func ctxKind(c *procCase) string {
+	switch {
+	case c.DeadlineMs < 0:
+		return "background"
+	case c.DeadlineMs == 0:
+		return "already-done"
+	case c.Cancel && c.DeadlineMs > c.SleepMs+6000:
+		return "cancel-func-unused"
+	case c.Cancel:
+		return "cancelled-later"
+	}
+	return "deadline"
+}
+
 func runC17(a *Args) error {
 	rng := NewRng(a.Seed)
 	prelude := "From NV Require Import Base C17_Model.\nOpen Scope string_scope.\nOpen Scope Z_scope.\n"
@@ -212,41 +278,71 @@ func runC17(a *Args) error {
 			todo = append(todo, c)
 		}
 	}
+	selfPath = self
 	semNormal := make(chan struct{}, 8)
-	semSlow := make(chan struct{}, 64)
+	semSlow := make(chan struct{}, 96)
 	semHeavy := make(chan struct{}, 2)
 	var wg sync.WaitGroup
 	terms := map[int64]string{}
 	for _, c := range todo {
 		terms[c.ID] = c.inputTerm() // oracles, sequentially (some allocate)
 	}
+	// histories: the steps of one group run in order on one instance. In replay
+	// mode the whole history up to the wanted step is executed.
+	groups := map[int][]*procCase{}
+	for _, c := range pcs {
+		if c.Group > 0 {
+			groups[c.Group] = append(groups[c.Group], c)
+		}
+	}
+	started := map[int]bool{}
 	for _, c := range todo {
+		steps := []*procCase{c}
+		if c.Group > 0 {
+			if started[c.Group] {
+				continue
+			}
+			started[c.Group] = true
+			steps = groups[c.Group]
+			if a.Only >= 0 {
+				steps = steps[:c.Step+1]
+				for _, st := range steps {
+					st.inputTerm()
+				}
+			}
+		}
 		sem := semNormal
-		if c.heavy() {
-			sem = semHeavy
-		} else if c.slow() {
-			sem = semSlow
+		for _, st := range steps {
+			if st.heavy() {
+				sem = semHeavy
+			} else if st.slow() && sem != semHeavy {
+				sem = semSlow
+			}
 		}
 		wg.Add(1)
-		go func(c *procCase, sem chan struct{}) {
+		go func(steps []*procCase, sem chan struct{}) {
 			defer wg.Done()
 			sem <- struct{}{}
 			defer func() { <-sem }()
-			c.execute(root, self)
-		}(c, sem)
+			executeGroup(steps, root)
+		}(steps, sem)
 	}
 	wg.Wait()
 	for _, c := range todo {
 		term := CApp("mk_case", CN(c.ID), CApp("IProc", terms[c.ID]), CApp("OProc", c.obsTerm()))
 		plainValid := c.Out == validStdout(c.Cmd, c.Name) && c.OutPA == 0 && c.OutPB == 0
 		nontriv := c.File == "FExec" && (c.Exit != 0 || c.errLen() > 0 || !plainValid || c.slow() || c.heavy() || c.DeadlineMs >= 0)
-		key := fmt.Sprintf("%d|%s|%s|%d|%d|%d|%d|%v|%d|%s|%d|%d|%s|%d", c.Cmd, c.Name, c.File, c.Exit, c.SleepMs, c.DescMs, c.DeadlineMs, c.Cancel, c.OutPB, c.Out, c.OutPA, c.ErrPB, c.Err, c.ErrPA)
+		key := fmt.Sprintf("%d.%d|%d|%s|%s|%d|%d|%d|%d|%v|%d|%s|%d|%d|%s|%d", c.Group, c.Step, c.Cmd, c.Name, c.File, c.Exit, c.SleepMs, c.DescMs, c.DeadlineMs, c.Cancel, c.OutPB, c.Out, c.OutPA, c.ErrPB, c.Err, c.ErrPA)
 		desc := *c
 		if len(desc.Err) > 300 {
 			desc.Err = desc.Err[:300] + fmt.Sprintf("...(%d bytes)", len(c.Err))
 		}
 		w.Add(c.ID, term, &desc, key, nontriv)
 		w.Count("family", strings.SplitN(c.Fam, ":", 2)[0])
+		if c.Group > 0 {
+			w.Count("history_step", fmt.Sprint(c.Step))
+		}
+		w.Count("context", ctxKind(c))
 		w.Count("command", c.CmdName)
 		w.Count("result", strings.SplitN(c.Result, " ", 2)[0])
 		w.Count("in_time", fmt.Sprint(c.InTime))
@@ -260,8 +356,14 @@ func runC17(a *Args) error {
 	if a.Tier == "thorough" {
 		nW = 60000
 	}
-	for k := 0; k < nW; k++ {
-		c := genWriter(rng)
+	sys := sysWriters()
+	for k := 0; k < nW+len(sys); k++ {
+		var c *writerCase
+		if k < len(sys) {
+			c = sys[k]
+		} else {
+			c = genWriter(rng)
+		}
 		my := id
 		id++
 		if !w.Want(my) {
